@@ -8,6 +8,7 @@ import TantivyModel.Model.Writer
   -- mirrors: src/indexer/segment_updater.rs::merge (advance every source, cursor of the first)
   -- mirrors: src/indexer/segment_updater.rs::end_merge (catch-up guard, as extracted)
 
+(`Model/WriterBook.lean` is the whole state machine with this bookkeeping, `C02_bookkeeping_refines`.)
 The state machine of `Model/Writer.lean` uses the core `advance`; `Props/C02.lean` shows that on the
 states its invariant allows (committed segments sit exactly at the last commit) the bookkeeping is
 invisible (`C02_mergeSegsD_committed`), and what it does on the F8 shape
